@@ -62,6 +62,8 @@ def hints(draw):
     for key in ("nc_header_align_size", "nc_var_align_size", "nc_record_align_size"):
         if G.chance(draw, 45):
             h[key] = draw(st.sampled_from([1, 4, 6, 512, 1000, 4096, 8192]))
+    if G.chance(draw, 30):
+        h["nc_num_aggrs_per_node"] = draw(st.sampled_from([1, 2]))      # collective writes go through intra-node aggregators
     return h or None
 
 
